@@ -7,7 +7,7 @@ EXPLANATION = ("Kani: the insert-invalidation pre-filter never prunes an insert 
                "(bump before taking the lock; re-check under the write lock; search entry points read the generation before searching and store only conditionally), "
                "k/scope discipline of lookups, invalidation coverage on every write path.")
 TRUSTED_BASE = ["Kani/CBMC float semantics", "rustc MIR", "z3", "64-bit query-hash collision-freeness"]
-NOT_COVERED = ["the store-after-invalidate race itself (schedules)", "similarity hits being a result a fresh search could return", "64-bit query-hash collisions", "cosine pre-filter (sqrt-heavy; not attempted)",
+NOT_COVERED = ["the store-after-invalidate race itself (schedules)", "similarity hits being a result a fresh search could return", "64-bit query-hash collisions", 
                "vectors off the quantised grid (ulp-level rounding)"]
 
 Q = "query_hash_cache::QueryHashCache::"
@@ -93,6 +93,9 @@ HARNESSES = [
        bounds="q,e on the grid k/8 in [-2,2]^3, worst on k/8 in [0,4]", tier="thorough", timeout=1200),
     KH("O7.1/inner_product_l2", "c07_o1_prefilter_inner_product_l2", "pre-filter soundness, inner product, len 2, prefix 1 (tail norms given exactly)", src="query_hash_cache.rs", functions=FK,
        bounds="q,e on the grid k/8 in [-2,2]^2, worst on k/8 in [-4,6]; tail norms = |q1|,|e1| (exact sqrt)", timeout=600),
+    KH("O7.1/cosine_l2", "c07_o1_prefilter_cosine_l2", "pre-filter soundness, cosine, len 2, prefix 1 (statistics from the real embedding_stats; sqrt-free exact oracle with 2^-8 margin)",
+       src="query_hash_cache.rs", functions=FK + [("query_hash_cache.rs", "cosine_upper_bound_from_prefix"), ("query_hash_cache.rs", "embedding_stats")],
+       bounds="q,e on the grid k/4 in [-2,2]^2 (non-zero), worst on k/4 in [0,2]", timeout=900),
 ]
 
 
